@@ -24,7 +24,7 @@ func TestMain(m *testing.M) {
 			"unsolicited reply of a third command, stray reply ahead of the right one} x {outside, inside a session}; history A(fault), B, A, B over a transport with UDP socket-queue "+
 			"semantics (a left-over datagram is read by the next call). Oracle at the transport: for every call returning a nil error the last datagram delivered during that call is a "+
 			"response whose NetFn/command (and group body code) match the request, and the returned value equals the BMC's data for that command; every call ends within its attempt "+
-			"budget. Random histories of 2..6 calls add variety. Non-trivial = some call found a foreign reply at the head of its queue; distinct by (A, B, fault, mode)")
+			"budget. Additionally, for every command, a stray response whose NetFn/command differ from the expected ones in single bits and whose bytes decode as the awaited response. Random histories of 2..6 calls add variety. Non-trivial = some call found a foreign reply at the head of its queue; distinct by (A, B, fault, mode)")
 	ev.Assume("a stale reply of the same command type is indistinguishable (the library's message sequence number is constant) and outside the property")
 	evid.Main(m, ev)
 }
@@ -215,6 +215,83 @@ func TestPairs(t *testing.T) {
 	ev.Label("pairs-complete")
 }
 
+// TestNeighbourOperations: for every catalogue command a stray response whose
+// (NetFn, command) differs from the expected response's in one bit (or one bit
+// each), carrying exactly the bytes the real response would carry, sits ahead of
+// the real response. It decodes perfectly well as the awaited response, so only
+// the operation comparison can reject it.
+func TestNeighbourOperations(t *testing.T) {
+	cat := hx.Catalogue()
+	suites := hx.Suites9()
+	type mask struct{ nf, cmd byte }
+	var masks []mask
+	for b := uint(0); b < 8; b++ {
+		masks = append(masks, mask{0, 1 << b})
+	}
+	for b := uint(1); b < 6; b++ { // bit 0 of the NetFn stays set: still a response
+		masks = append(masks, mask{1 << b, 0})
+		if ev.Thorough() {
+			for c := uint(0); c < 8; c++ {
+				masks = append(masks, mask{1 << b, 1 << c})
+			}
+		}
+	}
+	n := 0
+	for _, inSession := range []bool{false, true} {
+		for _, e := range cat {
+			for _, mk := range masks {
+				n++
+				c := hx.Creds{User: "admin", Password: []byte("pw"), Priv: 4, Suite: suites[(n+int(ev.Seed))%9], Seed: uint64(ev.Seed)*977 + uint64(n)}
+				w := hx.NewWorldFor(c, true)
+				var cn conn = w.T
+				var bs *simbmc.Session
+				if inSession {
+					s, err := w.T.NewV2Session(context.Background(), c.Opts())
+					if err != nil {
+						t.Fatalf("harness: %v", err)
+					}
+					cn, bs = s, w.BMC.ActiveSession()
+				}
+				call := prepare(e, w.BMC, n*31+int(ev.Seed))
+				first := true
+				w.BMC.Intercept = func(b *simbmc.BMC, rx *simbmc.Rx) {
+					if !first || rx.Msg == nil || len(rx.Replies) == 0 {
+						return
+					}
+					first = false
+					// the real response message with its operation changed
+					real := b.ResponseFor(rx.Msg, 0, nil)
+					if m := msgOf(rx.Replies[0].Data, bs); m != nil {
+						real = m
+					}
+					stray := *real
+					stray.NetFn ^= mk.nf
+					stray.Cmd ^= mk.cmd
+					rx.Replies = append([]memnet.Out{b.Wrap(bs, stray.Bytes())}, rx.Replies...)
+				}
+				delivered := len(w.Net.Delivered)
+				ctx, cancel := w.Ctx(8)
+				code, err := cn.SendCommand(ctx, call.Cmd)
+				cancel()
+				ev.Eval()
+				ev.NonTrivial(fmt.Sprintf("nb|%v|%s|%x|%x", inSession, e.Name, mk.nf, mk.cmd))
+				if err != nil {
+					continue
+				}
+				last := msgOf(w.Net.Delivered[len(w.Net.Delivered)-1], bs)
+				wantNetFn, wantCmd := byte(call.Key>>8)|1, byte(call.Key)
+				if len(w.Net.Delivered) == delivered || last == nil || last.NetFn != wantNetFn || last.Cmd != wantCmd {
+					msg := fmt.Sprintf("inSession=%v %s: call returned (code %v, nil error) on a stray response for NetFn %#x cmd %#x (expected response: NetFn %#x cmd %#x)",
+						inSession, call.Name, code, wantNetFn^mk.nf, wantCmd^mk.cmd, wantNetFn, wantCmd)
+					ev.Violation("TestNeighbourOperations", map[string]any{"inSession": inSession, "command": e.Name, "netfnMask": mk.nf, "cmdMask": mk.cmd}, msg)
+					t.Fatalf("%s", msg)
+				}
+			}
+		}
+	}
+	ev.Label("neighbour-operations-complete")
+}
+
 func TestRandomHistories(t *testing.T) {
 	cat := hx.Catalogue()
 	ev.Check(t, "TestRandomHistories", ev.PickN(1200, 600000), func(t *rapid.T) {
@@ -240,7 +317,7 @@ func TestRandomHistories(t *testing.T) {
 }
 
 func TestCoverage(t *testing.T) {
-	need := []string{"pairs-complete"}
+	need := []string{"pairs-complete", "neighbour-operations-complete"}
 	for _, f := range faults {
 		need = append(need, "foreign-head:"+f+":inSession=true", "foreign-head:"+f+":inSession=false")
 	}
